@@ -480,13 +480,43 @@ fn c05_saturation(c: &mut Case) -> Result<(), String> {
     let n = 70_000 + c.rng.below(1000);
     let read: S = vec![b; n + 4];
     let other = c.rng.bases(30, 4);
-    let input: Vec<(DnaString, Exts, u32)> = vec![
-        (DnaString::from_bytes(&read), Exts::empty(), 0),
-        (DnaString::from_bytes(&other), Exts::empty(), 1),
-    ];
-    let (idx, _): (BoomHashMap2<K, Exts, u16>, Vec<K>) =
-        filter_kmers(&input, &Box::new(CountFilter::new(65535)), stranded, false, 1);
-    let t = build_table(&whole_reads(&[read.clone(), other.clone()]), 5, stranded);
+    // first a single-window piece of the same k-mer carrying all 8 boundary extensions, so that the
+    // summary is "complete" long before the observations run out
+    let full_first = c.rng.chance(1, 2);
+    let mut seqs: Vec<Seq> = Vec::new();
+    if full_first {
+        seqs.push(Seq { bases: vec![b; 5], exts: 0xff, label: 7 });
+    }
+    seqs.push(Seq { bases: read.clone(), exts: 0, label: 0 });
+    seqs.push(Seq { bases: other.clone(), exts: 0, label: 1 });
+    let input = dna_seqs(&seqs);
+    let (idx, all): (BoomHashMap2<K, Exts, u16>, Vec<K>) =
+        filter_kmers(&input, &Box::new(CountFilter::new(65535)), stranded, true, 1);
+    let t = build_table(&seqs, 5, stranded);
+    {
+        let got: Vec<S> = all.iter().map(|x| kstr(x)).collect();
+        let exp: Vec<S> = t.keys().cloned().collect();
+        ensure!(got == exp, "saturation: all_kmers has {} entries for {} distinct k-mers (a k-mer summarised twice?)", got.len(), exp.len());
+        let mut seen = BTreeSet::new();
+        for (k, _, _) in idx.iter() {
+            ensure!(seen.insert(kstr(k)), "saturation: key {} twice in the table", ascii(&kstr(k)));
+        }
+    }
+    // also with a low threshold: every k-mer is accepted exactly once
+    {
+        let (idx1, _): (BoomHashMap2<K, Exts, u16>, Vec<K>) =
+            filter_kmers(&input, &Box::new(CountFilter::new(1)), stranded, false, 1);
+        ensure!(idx1.len() == t.len(), "saturation: CountFilter(1) table has {} rows for {} distinct k-mers", idx1.len(), t.len());
+        for (ks, row) in &t {
+            match idx1.get(&kfrom::<K>(ks)) {
+                Some((e, cnt)) => {
+                    ensure!(*cnt as usize == row.obs.len().min(65535), "saturation: count of {}", ascii(ks));
+                    ensure!(masks_agree(ks, stranded, row.mask, e.val), "saturation: extensions of {} are {:#04x}, model {:#04x}", ascii(ks), e.val, row.mask);
+                }
+                None => return Err(format!("saturation: {} missing under CountFilter(1)", ascii(ks))),
+            }
+        }
+    }
     for (ks, row) in &t {
         let exp = row.obs.len().min(65535);
         match idx.get(&kfrom::<K>(ks)) {
@@ -571,7 +601,7 @@ pub fn run_c05(ctx: &Ctx) {
         ctx.run_group_t("big", ctx.n(1, 4), false, 4, |c| c05_big(c));
     }
     if !ctx.is_miri() {
-        ctx.run_group("saturation", ctx.n(2, 6), false, |c| c05_saturation(c));
+        ctx.run_group("saturation", ctx.n(6, 24), false, |c| c05_saturation(c));
         let (cases, passes) = if thorough { (3, 3) } else { (1, 2) };
         // sequential: each case transiently holds > 1 GB
         let saved = ctx.threads;
